@@ -236,6 +236,21 @@ def other_cases(tier, Ts, bound=1, big_stencil=True):
                                 (cid, T, b, extr, strat, 1 + (k % 2), 2 + (k % 2), fmg, tf, k % 2))
                         cases.append(dict(id=cid, line=line, op="solver", T=T, group=cid.rsplit("_T", 1)[0]))
                     k += 1
+    # every shipped (geometry, problem, coefficient) class once through setup() + one cycle with two threads: the input-function
+    # OBJECTS (source term, exact solution, boundary data, coefficients, geometry) are shared by the threads of build_rhs_f,
+    # discretize_rhs_f, the level caches and the exact-error evaluation
+    import c01 as _c01
+    triples = [(g, p_, a, b_) for g in (0, 1, 2) for p_ in (0, 1, 2) for (a, b_) in _c01.PROFILES] + [(3, 2, 3, 1), (3, 3, 3, 1),
+                                                                                                     (0, 3, 3, 1), (1, 3, 3, 1), (2, 3, 3, 1)]
+    if tier != "thorough":
+        triples = triples[::3] + triples[-5:]
+    for (g, p_, a, b_) in triples:
+        kd = {0: ("0.0", "0.0"), 1: ("0.3", "0.2"), 2: ("0.3", "1.4"), 3: ("0.0", "0.0")}[g]
+        cid = "inp_g%dp%da%db%d_T2" % (g, p_, a, b_)
+        line = ("id=%s op=solver T=2 bound=0 perms=rev audit=0 nr_exp=3 ntheta_exp=4 extr=0 strat=%d maxit=1 geom=%d prob=%d alpha=%d beta=%d "
+                "kappa=%s delta=%s fmg=0 fmg_it=1 tfactor=1.0 dirbc=%d cc=%d cg=%d" %
+                (cid, 1, g, p_, a, b_, kd[0], kd[1], (g + p_) % 2, (a + g) % 2, (p_ + b_) % 2))
+        cases.append(dict(id=cid, line=line, op="solver", T=2, group=cid.rsplit("_T", 1)[0]))
     # uncached give paths (coefficients / geometry recomputed inside the parallel regions, uncached rhs discretisation)
     for ci, (cc, cg) in enumerate([(0, 0), (0, 1), (1, 0)]):
         for T in [t for t in Ts if t in (2, 3, 4)]:
